@@ -22,6 +22,13 @@ var (
 	gray   = color.New(color.FgHiBlack)
 )
 
+// oneLine replaces the line breaks of a message which comes from a library, and may echo a user input
+// as is, with spaces. An error is reported in one line so its message must not contain a line break
+// (LF, CR and the line terminators of Unicode: NEL, LS, PS).
+func oneLine(s string) string {
+	return strings.NewReplacer("\r\n", " ", "\n", " ", "\r", " ", "\u0085", " ", "\u2028", " ", "\u2029", " ").Replace(s)
+}
+
 // Error represents an error detected by actionlint rules
 type Error struct {
 	// Message is an error message.
